@@ -207,4 +207,17 @@ VARIANTS = [
     {"name": "P R1 send_acks skips an empty id list", "file": BC, "expect": "silent",
      "old": "        logging.debug(\"%r acking %r\" % (direction, to_ack))\n",
      "new": "        if not to_ack:\n            return\n        logging.debug(\"%r acking %r\" % (direction, to_ack))\n"},
+    # ------------------------------------------------------------------ key helper (refactor round 3, G2/7)
+    {"name": "P R3 send_reliable looks its entry up through a key helper", "expect": "silent", "edits": [
+        {"file": BC, "old": "class Circuit:\n", "new": "def _table_key(m):\n    return m.direction, m.packet_id\n\n\nclass Circuit:\n"},
+        {"file": BC, "old": "        return self.unacked_reliable[(message.direction, message.packet_id)].completed\n",
+         "new": "        return self.unacked_reliable[_table_key(message)].completed\n"}]},
+    {"name": "R3 send_reliable key helper keys by packet id first", "expect": "C19.R3", "edits": [
+        {"file": BC, "old": "class Circuit:\n", "new": "def _table_key(m):\n    return m.packet_id, m.direction\n\n\nclass Circuit:\n"},
+        {"file": BC, "old": "        return self.unacked_reliable[(message.direction, message.packet_id)].completed\n",
+         "new": "        return self.unacked_reliable[_table_key(message)].completed\n"}]},
+    {"name": "R5 give-up removes a key built from the packet id only", "expect": "C19.R5", "edits": [
+        {"file": BC, "old": "class Circuit:\n", "new": "def _table_key(m):\n    return m.packet_id\n\n\nclass Circuit:\n"},
+        {"file": BC, "old": "                del self.unacked_reliable[(msg.direction, msg.packet_id)]\n",
+         "new": "                del self.unacked_reliable[_table_key(msg)]\n"}]},
 ]
